@@ -483,6 +483,13 @@ func init() {
 		var mu sync.Mutex
 		evals := 0
 		distinct := map[string]bool{}
+		// the silent network drop takes as long as the server's keep-alive needs
+		// (about 40s): it runs alongside everything else
+		silent := make(chan [2]string, 1)
+		go func() {
+			s, m := runC16SilentDrop()
+			silent <- [2]string{s, m}
+		}()
 		ch := make(chan c16Seq, 16)
 		var wg sync.WaitGroup
 		for k := 0; k < 12; k++ {
@@ -569,6 +576,11 @@ func init() {
 			}()
 		}
 		wg.Wait()
+		if sd := <-silent; sd[0] != "" {
+			run.Violation("C16", sd[0], sd[1], map[string]any{"engine": "E4-C16", "silent_drop": true})
+		}
+		evals++
+		distinct["silent-drop"] = true
 		run.Set("reconnect_cases", len(c16ReconnectCases()))
 		run.Set("mixed_token_cases", len(c16MixedCases(run.Thorough())))
 		if sig, msg := runC16NoDisconnect(); sig != "" {
@@ -581,7 +593,7 @@ func init() {
 		ends = append(ends, c16Endings...)
 		sort.Strings(ends)
 		run.Set("endings", ends)
-		run.Set("rule", "one real server per sequence; k upstream connections on shared/distinct endpoints, every assignment of an ending (client close, go-away then close, go-away + proxied request (ErrGone removal) then close, abrupt TCP close, server-side shed, token expiry) in every order, with and without a proxied request in flight, a third ending with server shutdown; after every ending registry == routing table == published gossip entries == still-connected set and open-session count matches; plus real client listeners behind a gate: {1,2} listeners x {Shutdown, Close} x {while connected, while reconnecting during an outage, after a reconnect}; plus every connect order of 2-3 upstreams with tokens {expiring in 3s, no exp claim, far expiry}: exactly the expired ones are closed; non-trivial = distinct (endpoints, endings, order)")
+		run.Set("rule", "one real server per sequence; k upstream connections on shared/distinct endpoints, every assignment of an ending (client close, go-away then close, go-away + proxied request (ErrGone removal) then close, abrupt TCP close, server-side shed, token expiry) in every order, with and without a proxied request in flight, a third ending with server shutdown; after every ending registry == routing table == published gossip entries == still-connected set and open-session count matches; plus real client listeners behind a gate: {1,2} listeners x {Shutdown, Close} x {while connected, while reconnecting during an outage, after a reconnect}; plus every connect order of 2-3 upstreams with tokens {expiring in 3s, no exp claim, far expiry}: exactly the expired ones are closed; plus a connection whose network goes dark without FIN/RST is noticed and deregistered by the server; non-trivial = distinct (endpoints, endings, order)")
 		run.Set("exhaustive", run.Thorough())
 		run.Assume("schedules inside net/http, yamux and gorilla/websocket are free-running; liveness waits poll for up to 15s and a failure is re-run twice before it is reported")
 		fmt.Printf("  C16: sequences=%d distinct=%d\n", evals, len(distinct))
@@ -593,12 +605,17 @@ func init() {
 				Sequence  *c16Seq       `json:"sequence"`
 				Reconnect *c16Reconnect `json:"reconnect"`
 				Mixed     *c16Mixed     `json:"mixed"`
+				SilentDrop bool         `json:"silent_drop"`
 			} `json:"replay"`
 		}
 		readJSON(path, &doc)
 		e4.Keys()
 		if doc.Replay.Reconnect != nil {
 			fmt.Println(runC16Reconnect(*doc.Replay.Reconnect))
+			return 0
+		}
+		if doc.Replay.SilentDrop {
+			fmt.Println(runC16SilentDrop())
 			return 0
 		}
 		if doc.Replay.Mixed != nil {
